@@ -1,5 +1,6 @@
 import Ndt.Model.Dea
 import Ndt.Proofs.FieldNum
+import Ndt.Proofs.DeaTotal
 import Mathlib.Tactic.Ring
 import Mathlib.Tactic.FieldSimp
 import Mathlib.Tactic.Linarith
@@ -164,5 +165,18 @@ theorem dea_abserr_floor_every_call (c : DeaConsts K) (h5 : c.five * c.eps ≤ 1
       simp only [pure, Except.pure, Except.ok.injEq, Prod.mk.injEq] at h
       obtain ⟨rfl, rfl, _⟩ := h
       exact dea_abserr_floor c _ _ _ _ _ hp
+
+/-! ## Dea is total (proved in `Ndt/Proofs/DeaTotal.lean` for every carrier) -/
+
+/-- the constructor accepts `limexp = 3` (and the invariant holds there): the hypotheses of `dea_total` are satisfiable -/
+example : ∃ st : DeaState ℚ, deaInit 3 = some st ∧ DeaInv st :=
+  ⟨_, rfl, deaInit_inv 3 _ rfl⟩
+
+/-- **C14, totality**: restated for the record next to the other property theorems -/
+theorem dea_never_fails {K : Type} [Num K] (c : DeaConsts K) (limexp : ℕ) (st0 : DeaState K)
+    (h0 : deaInit limexp = some st0) (seq : List K) :
+    ∃ outs stf, deaRun c st0 seq = .ok (outs, stf) ∧ outs.length = seq.length :=
+  let ⟨o, s, h, hl, _⟩ := dea_total c limexp st0 h0 seq
+  ⟨o, s, h, hl⟩
 
 end Ndt
